@@ -80,7 +80,11 @@ fn godepth(out: &mut Out, id: u64, case: &Value) {
     let d = u64_of(case, "d", 1);
     let cap = u64_of(case, "cap", 60000) as usize;
     // the table first: positions whose reference tree is too large are skipped, not searched
+    let noeval = case.get("noeval").and_then(Value::as_bool).unwrap_or(false);
     let tbl = guarded(|| {
+        if noeval {
+            return (true, HashMap::new());      // this case is judged without a reference value
+        }
         let mut b = Bitboard::from_fen_string(&fen).expect("case FEN");
         for m in &moves {
             b.make_uci(m).expect("case move");
@@ -142,7 +146,7 @@ fn godepth(out: &mut Out, id: u64, case: &Value) {
     }
     out.emit(&json!({"c": id, "ev": "godepth", "fen": fen, "moves": moves, "d": d, "searchmoves": sm, "st": st, "score": score_json(score), "depth_seen": depth_seen,
                      "pv": pv, "best": best, "ponder": ponder, "evals": evals, "tree": tbl.len(), "warm": warmed, "ref": str_of(case, "ref"),
-                     "contempt": verif::contempt(), "mode": str_of(case, "mode"), "flipof": u64_of(case, "flipof", 0)}));
+                     "contempt": verif::contempt(), "mode": str_of(case, "mode"), "flipof": u64_of(case, "flipof", 0), "cycle": strs(case, "cycle")}));
 }
 
 pub fn run(args: &[String]) -> i32 {
